@@ -242,6 +242,29 @@ def r4(ctx):
                 kw.update({kk.value: src(vv) for kk, vv in zip(dd[0].keys, dd[0].values) if isinstance(kk, ast.Constant)})
     ok = len(calls) == 1 and kw.get('read1_only') == 'True' and kw.get('min_mq') == 'min_mq' and kw.get('dedup') == 'dedup' and src(calls[0].args[0]) == (loop.target.elts[1].id if isinstance(loop.target, ast.Tuple) else loop.target.id)
     ctx.emit('C12-R4', ok, BINCOUNTS, calls[0] if calls else loop, f'counter filters with read_counts({", ".join(f"{k}={v}" for k, v in kw.items())})', key='filter-call')
+    # option wiring: an option handed to the filter that is looked up in the job's option dictionary is looked up under its own name
+    # (`ignore_mp=kwargs.get('ignore_mp')`); a look-up under another key silently couples two options
+    miswired = []
+    for name_, val_ in kw.items():
+        if name_ is None:
+            continue
+        v_ = val_
+        dd = [s_.value for s_ in walk_no_nested(f) if isinstance(s_, ast.Assign) and len(s_.targets) == 1 and src(s_.targets[0]) == v_]
+        e_ = dd[-1] if dd else None
+        if e_ is None:
+            try:
+                e_ = ast.parse(v_, mode='eval').body
+            except SyntaxError:
+                continue
+        for c_ in ast.walk(e_):
+            if isinstance(c_, ast.Call) and isinstance(c_.func, ast.Attribute) and c_.func.attr in ('get', 'pop') and c_.args and isinstance(c_.args[0], ast.Constant) and isinstance(c_.args[0].value, str):
+                if c_.args[0].value != name_:
+                    miswired.append((name_, c_.args[0].value))
+            if isinstance(c_, ast.Subscript) and isinstance(c_.slice, ast.Constant) and isinstance(c_.slice.value, str) and c_.slice.value != name_:
+                miswired.append((name_, c_.slice.value))
+    ctx.emit('C12-R4', not miswired, BINCOUNTS, calls[0] if calls else loop, 'filter options are looked up under their own names' if not miswired else
+             f'filter option `{miswired[0][0]}` is read from the job option `{miswired[0][1]}`: setting one option silently switches the other', key='filter-option-wiring',
+             what='count_fragments_binned: a filter option is wired to the wrong job option')
     mod = ctx.ix.module(BINCOUNTS)
     p = mod.parent[calls[0]] if calls else None
     while p is not None and not isinstance(p, ast.If):
